@@ -64,6 +64,13 @@ def run(tier):
     for i in range(4 if thorough else 1):     # delete runs that fill the memstore with tombstones (see C02), with the asynchronous log
         st = c02.session(rng, "delheavy")
         sessions.append(("delheavy-%d" % (n + i), [dict(x, **{"async": True}) if x["op"] == "open" else x for x in st]))
+    for i in range(6 if thorough else 2):     # two clients and a tiny memstore: rotations fall between the steps of the other client's mutation
+        u = dbgen.Uniq()
+        def ops(cid, n=45):
+            return [({"op": "put", "k": rng.randrange(6), "v": u.next(cid), "pad": rng.choice([0, 30])} if rng.random() < 0.75 else {"op": "del", "k": rng.randrange(6)}) for _ in range(n)]
+        st = [dict(dbgen.open_step(rng.choice([1, 2]), 1 << 30, 1000, mem=rng.choice([60, 120]), bg=False), **{"async": True}),
+              {"op": "par", "clients": [ops("a"), ops("b")]}, {"op": "close"}]
+        sessions.append(("twoclients-%d" % (n + 10 + i), st))
     npoints, nd, descs, nok, nbad = c02.run_sessions(o, binary, sessions, "async", PID)
     c02.hugewal(o, binary, "async", PID)
     common.log("[C13] %d sessions, %d crash points (%d distinct images), %d allowed, %d rejected" % (n, npoints, nd, nok, nbad))
